@@ -234,7 +234,7 @@ func Worker(p Property, tier string, root, lo, hi, stride uint64, deadline time.
 				continue
 			}
 			shrunkPerKey[k]++
-			sc, sv, traces, hashes, used := Shrink(p, c, v, schedRoot, plan.Schedules, 400)
+			sc, sv, traces, hashes, used := Shrink(p, c, v, schedRoot, plan.Schedules, 900)
 			sv.Shape = p.Shape(sc, sv)
 			res.Found = append(res.Found, Found{
 				Property: p.ID(), Violation: sv, Case: mustJSON(sc), Traces: traces, LogHashes: hashes,
